@@ -13,4 +13,5 @@ INVARIANT Conservation
 INVARIANT RecordShape
 INVARIANT WindowProp
 INVARIANT MonoProps
+INVARIANT ExitProp
 CHECK_DEADLOCK FALSE
